@@ -398,9 +398,11 @@ def _sources(ctx, rng, oracle=False):
     """[(fields, kind)]: fixed ones first (the witnesses of the repaired defects), then generated."""
     fixed = [
         (12, 1, 0, 1, 31, 23, 1, False), (12, 30, 0, 1, 2, 23, 4, True), (3, 1, 0, 3, 31, 23, 2, False),
-        (2, 27, 0, 3, 2, 23, 6, True), (1, 1, 0, 12, 31, 23, 1, False), (6, 1, 0, 5, 31, 23, 1, False),
+        (2, 27, 0, 3, 2, 23, 6, True), (1, 1, 0, 12, 31, 23, 1, False),
         (12, 31, 0, 1, 1, 23, 60, False), (1, 1, 0, 1, 1, 23, 30, True),
     ]
+    if not ctx.quick:
+        fixed += [(6, 1, 0, 5, 31, 23, 1, False), (1, 1, 0, 12, 31, 23, 2, True), (7, 2, 0, 7, 1, 23, 1, True)]
     out = [(c, _src_kind(c)) for c in fixed]
     if oracle:
         kinds = ['annual'] * ctx.n(1, 6) + ['partial'] * ctx.n(6, 100) + ['wrapping'] * ctx.n(6, 100)
@@ -518,7 +520,7 @@ def correspondence(ctx):
         kinds = list(PERIOD_KINDS)
         if kind == 'annual':
             kinds += ['wrap-long', 'straddle', 'wrap-long']
-        npf = ctx.n(10, 14) if nvals > 5000 else ctx.n(14, 22)
+        npf = ctx.n(6, 14) if nvals > 5000 else ctx.n(10, 22)
         for _ in range(npf):
             fk = rng.choice(kinds)
             f = _gen_filter(rng, c, fk)
@@ -1002,7 +1004,7 @@ def _oracle_cases(ctx):
         kinds = [k for k in PERIOD_KINDS if k not in ('outside', 'two-piece', 'mismatch')]
         if kind == 'annual':
             kinds += ['wrap-long', 'straddle']
-        for _ in range(6 if nvals > 5000 else 10):
+        for _ in range(ctx.n(4, 8) if nvals > 5000 else ctx.n(8, 12)):
             fk = rng.choice(kinds)
             f = _gen_filter(rng, c, fk)
             yield 'period', {'src': list(c), 'path': 'cont', 'fkind': fk, 'filter': list(f)}
